@@ -16,6 +16,7 @@ parser crashes belong to C14.
 """
 import json
 import os
+import copy
 import random
 import sys
 
@@ -186,11 +187,15 @@ def check_case(data, segs, sep="."):
     proc = Processor(_LOG[0], data)
     findings = []
     outs = []
-    for call in ("get_nodes", "exists"):
+    for call in ("get_nodes", "exists", "get_nodes(mustexist=False)"):
         if call == "get_nodes":
             r = call_real(lambda: len(list(proc.get_nodes(text, mustexist=True))))
-        else:
+        elif call == "exists":
             r = call_real(lambda: proc.exists(text))
+        else:
+            # the optional-match query may create nodes: it runs on its own copy of the document
+            proc2 = Processor(_LOG[0], copy.deepcopy(data))
+            r = call_real(lambda: len(list(proc2.get_nodes(text, mustexist=False))))
         outs.append(r)
         if r[0] == "crash":
             findings.append(("witness", _crash_key(r),
@@ -416,12 +421,16 @@ def replay(inp):
     if parse_status(text) != "ok":
         return None
     proc = Processor(gen.quiet_logger(), data)
-    calls = [inp["call"]] if inp.get("call") in ("get_nodes", "exists") else ["get_nodes", "exists"]
+    ALL = ("get_nodes", "exists", "get_nodes(mustexist=False)")
+    calls = [inp["call"]] if inp.get("call") in ALL else list(ALL)
     for call in calls:
         if call == "get_nodes":
             r = call_real(lambda: len(list(proc.get_nodes(text, mustexist=True))))
-        else:
+        elif call == "exists":
             r = call_real(lambda: proc.exists(text))
+        else:
+            proc2 = Processor(gen.quiet_logger(), copy.deepcopy(data))
+            r = call_real(lambda: len(list(proc2.get_nodes(text, mustexist=False))))
         if r[0] == "crash":
             return {"key": _crash_key(r), "what": "%s() let %s escape (from %s: %s)" % (call, r[1], r[2], r[3]),
                     "inputs": [inp], "observed": [r[1], r[2], r[3]],
